@@ -49,6 +49,33 @@ CLAIMS = {
         technique="abstract interpretation (interval/enum/record domains) of the conversion code over all colour types x systems",
         design_ref="5/C18",
     ),
+    "C10": dict(
+        category="other",
+        text="Decides the fault clause and the structural necessary conditions of the screen clause. (R10.1) In the CFG of Live.stop / Progress.stop with exceptional edges out of every may-raise statement, every path from the `_started = False` store to ANY exit (normal or raising) passes through each release matching an acquisition made by start() (show_cursor(True), _disable_redirect_io, pop_render_hook); __exit__ of Live/Progress/Status reaches stop() on every path and returns falsy; the redirect slots are restored pairwise. "
+             "(R10.2) the stored frame shape is get_shape of exactly the lines emitted (reaching definitions incl. slicing/append; or set_shape to the stored shape). (R10.3) cursor-ups/erases in position_cursor/restore_cursor are h-1/h and h/h as linear forms of the stored height and the writers emit len(lines)-1 newlines. (R10.4) both hooks wrap prints as [eraser, *output, frame] and print/log apply hooks before rendering. "
+             "Not decided: the terminal-model replay over histories, tall frames, faults inside the release calls.",
+        note=COMMON_NOTE + "Fault model: any statement of stop() other than the three release calls may raise.",
+        technique="CFG must-pass-through with exceptional edges (typestate pairing) + reaching definitions + linear forms of control strings",
+        design_ref="5/C10",
+    ),
+    "C11": dict(
+        category="other",
+        text="Decides the lock discipline the property rests on, for all schedules, from the code: (R11.1) every write/flush on a Console's file holds Console._lock (lexically or on entry from every caller; Console.input's prompt echo is the one named exception); (R11.2) in _check_buffer the snapshot, its rendering/recording, the buffer clear and the single write of that string are in ONE Console._lock region guarded by _buffer_index == 0; "
+             "(R11.3) the buffer and nesting counter live in a threading.local subclass with per-thread default_factory and are never replaced; (R11.4) _record_buffer is only touched under _record_buffer_lock, the live renderer's state only under Live._lock; (R11.5) the lock-order graph over the four RLocks (may-held x acquires-transitively over a class-hierarchy call graph) is acyclic; (R11.6) no Thread.join while a lock the thread's run() needs may be held. "
+             "These are necessary conditions: failing one admits an interleaving that breaks the property. Not decided: actual interleavings, the composed screen invariant.",
+        note=COMMON_NOTE + "RLock/threading.local semantics; user file objects and user renderables take no rich locks; call resolution as listed in evidence (unresolved calls are to builtins/stdlib/user objects).",
+        technique="lock-region (guarded-by) analysis, held-on-entry fixpoint over a resolved call graph, lock-order graph acyclicity, join-under-lock check",
+        design_ref="5/C11",
+    ),
+    "C12": dict(
+        category="other",
+        text="Decides atomicity and the structural clauses: (R12.1) every access to a Task's counters and to Progress._tasks/_task_index in Progress methods and their helpers holds Progress._lock (no lost update under any interleaving); (R12.2) every speed sample's timestamp is read inside the lock region that appends it (samples are time-ordered, so speed cannot go negative with non-negative advances); "
+             "(R12.3) every store to completed/total is followed on every path by the finish test (>=, finished_time is None) or a reset, finished_time has no other writer, total changes reset it; (R12.4) percentage is proved 0 for a zero total and within [0,100] otherwise by abstract interpretation, every division in Task properties is dominated by a non-zero test; (R12.5) track() iterates the sequence itself, yields each element once and counts exactly one unit after the yield; the helper thread flushes its final count. "
+             "Not decided: arithmetic identities over whole histories, estimate values.",
+        note=COMMON_NOTE + "RLock semantics; ProgressColumn subclasses supplied by users read tasks only through Progress (under its lock).",
+        technique="guarded-by analysis with held-on-entry, reaching definitions of timestamps vs lock regions, CFG must-pass-through, abstract interpretation of clamps, dominance of zero tests",
+        design_ref="5/C12",
+    ),
 }
 
 NA = {
